@@ -6,6 +6,18 @@ NOTES = ("Static analysis only: every check parses /repo's current working tree 
          "exit 0 = holds, exit 1 + VIOLATION line = a rule instance is positively violated, exit 2 + ANALYSIS-INCOMPLETE = the analysis could not decide (anchor vanished / idiom outside catalogue). "
          "Genuine defects found on the pinned tree were repaired by 'fix:' commits in /repo and are recorded in known_findings.json.")
 CLAIMED = {
+ "C01": {"technique": "truth-table extraction of is_valid, effect analysis of HdlcFrame.append + write census, GF(2)-affine comparison of bit-field accessors, linear-form comparison of index expressions, decision-table rules on the reader",
+         "level": "other",
+         "text": "Decides the structural necessary conditions R1-R6: validity is exactly FCS-and-length, the FCS register is fed each frame octet exactly once and nothing else writes it, every accessor's bit/position geometry equals ISO 13239, frames consist of popped octets once and in order, emitted frames are frozen. The end-to-end statement over all streams is an argument (with C03/C06), not mechanised.",
+         "note": "Trusted: frame layout as stated in the property; C03 for the FCS itself; E-PATH enumerator. Accessors rewritten outside the recognised expression forms give exit 2, not a pass."},
+ "C06": {"technique": "non-interference analysis of the chunk boundary: def-use of the chunk parameter, read() skeleton typestate, per-step effect summary from the decision table, buffer-contract rules",
+         "level": "other",
+         "text": "Decides N1-N6: the chunk only extends the buffer, all reader state changes happen in the per-octet step which consumes exactly one octet and never inspects the buffered amount, no local/global carries state, trims preserve unconsumed input, trim-to-flag only in hunt mode where non-flag octets are neutral. Equality of outputs for two chunkings follows by the written argument; it is not replayed dynamically.",
+         "note": "Trusted: E-PATH enumerator; the argument in DESIGN.md §3/C06 composing N1-N6."},
+ "C02": {"technique": "path extraction of the per-octet step into a decision table over role-bound atoms, compared as a function of the atoms with a reference automaton; read() skeleton and buffer-contract rules",
+         "level": "other",
+         "text": "Decides the structural necessary conditions: the step function refines the ISO 13239 reference automaton on all rows a clean stream exercises (four configurations), the length guard admits 2047 octets, cross-call state is in reader fields, emitted frames are frozen, buffer pop/trim contracts hold. The induction over all streams/chunkings is an argument in DESIGN.md, not mechanised.",
+         "note": "Trusted: reference rows in sa/hdlcref.py; E-PATH path enumerator (sa/paths.py) and its treatment of sub-object calls as atomic effects. Unrecognised guard conditions are treated as free; a step path that leaves the recognised statement subset gives exit 2."},
  "C03": {"technique": "abstract interpretation in a GF(2)-affine bit-vector domain (matrix equality with the RFC 1662 bit-serial definition) + constant evaluation of the table + repository-wide write census",
          "level": "proof",
          "text": "Seven obligations (table, step map, update/init/write census, checksum, residue, uniqueness of the trailer, compute_checksum window/step/complement) are each discharged for ALL inputs: the step functions are GF(2)-affine, so equality of the extracted 16x24 matrices with the reference is equality on all 2^24 (register, octet) pairs, and induction on length gives all byte strings and windows. Tests on whole values (reg == k, reg or INIT) are split into point and generic cases.",
